@@ -1321,7 +1321,9 @@ class DateTime(datetime.datetime, Date):
             dt.second,
             dt.microsecond,
             fold=dt.fold,
-            tzinfo=dt.tzinfo,
+            # zoneinfo's fromutc() calls replace() on subclasses, which
+            # swaps a foreign tzinfo for the pendulum timezone of that name
+            tzinfo=dt.tzinfo if tz is None else tz,
         )
 
     def replace(
